@@ -1,11 +1,48 @@
 //! `parse <hex>`: `parse_program` and the `Debug` rendering of the library (one line), or `ERR code@start-end`.
+//! `AddressAssignment` has a hand-written `Debug` that leaves out the numeric `address`; it is put back here
+//! (collected by a visitor in declaration order, which is the order `Debug` prints in) so that the comparison
+//! with the model and with the expected tree sees it.
+use ironplc_dsl::common::{AddressAssignment, Library};
 use ironplc_dsl::core::FileId;
+use ironplc_dsl::visitor::Visitor;
 use ironplc_parser::{options::ParseOptions, parse_program};
+
+struct Addresses(Vec<Vec<u32>>);
+impl Visitor<()> for Addresses {
+    type Value = ();
+    fn visit_address_assignment(&mut self, node: &AddressAssignment) -> Result<(), ()> {
+        self.0.push(node.address.clone());
+        Ok(())
+    }
+}
+
+pub fn debug_with_addresses(lib: &Library) -> String {
+    let text = format!("{:?}", lib);
+    let mut v = Addresses(Vec::new());
+    let _ = v.walk(lib);
+    let marker = "AddressAssignment { location: ";
+    let n = text.matches(marker).count();
+    if n != v.0.len() {
+        // cannot be matched up: keep the plain text and say so (the comparison will then fail visibly)
+        return format!("{} ADDRESS-COUNT-MISMATCH {} {}", text, n, v.0.len());
+    }
+    let mut out = String::with_capacity(text.len() + 16 * n);
+    let mut rest = text.as_str();
+    for addr in v.0.iter() {
+        let i = rest.find(marker).unwrap();
+        let close = i + rest[i..].find(" }").unwrap();
+        out.push_str(&rest[..close]);
+        out.push_str(&format!(", address: {:?}", addr));
+        rest = &rest[close..];
+    }
+    out.push_str(rest);
+    out
+}
 
 pub fn parse(src: &str) -> String {
     let fid = FileId::from_string("f.st");
     match parse_program(src, &fid, &ParseOptions::default()) {
-        Ok(lib) => format!("OK {:?}", lib).replace('\n', "\\n"),
+        Ok(lib) => format!("OK {}", debug_with_addresses(&lib)).replace('\n', "\\n"),
         Err(d) => format!("ERR {}@{}-{}", d.code, d.primary.location.start, d.primary.location.end),
     }
 }
